@@ -134,9 +134,11 @@ class MetWrite(Obligation):
                 shp = (self.T, self.rows, self.cols) if k is None else \
                     (self.T, self.nz, self.rows, self.cols)
                 a = (rng.rand(*shp) * 300).astype('f')
-                # special bit patterns travel as plain copies
+                # special bit patterns travel as plain copies: a slab of
+                # negative zeros, a denormal
+                a[0, ...] = 0.0
+                a[0].reshape(-1)[:self.rows * self.cols] = -0.0
                 flat = a.reshape(-1)
-                flat[0] = -0.0
                 if flat.size > 1:
                     flat[-1] = np.float32(1e-45)
                 out[var] = a
@@ -363,8 +365,8 @@ class MetWrite(Obligation):
 
 def obligations(tier):
     obs = []
-    years = (1999, 2004) if tier == 'quick' else (1970, 1999, 2000, 2004,
-                                                  2069)
+    years = (1970, 1999, 2004) if tier == 'quick' else (
+        1970, 1999, 2000, 2004, 2069)
     for fmt in ('one3d', 'temperature', 'height_pressure', 'wind',
                 'cloud_rain'):
         for y in years:
